@@ -20,6 +20,7 @@ ASSUMPTIONS = [
     "net.ResolveIPAddr / net.SplitHostPort (host part of the hop address) are not modelled; the IP is an opaque value copied into every address",
     "the real timer and scheduler: hop instants and interleavings are inputs of the LTS (every interleaving of the code's locked sections and channel operations is covered by the theorems; the harness samples some)",
     "sockets returned by ListenUDPFunc behave like net.PacketConn: ReadFrom fails once the socket is closed",
+    "a socket whose Close() reports an error is closed nevertheless (as with close(2)); which sockets report one is an arbitrary input of the LTS",
 ]
 TRUSTED = ["modelled rather than verified: extras/utils/portunion.go, extras/transport/udphop/addr.go and conn.go (hand transcription in "
            "coq/model/C19_PortUnion.v and C19_Hop.v; sort.Slice, strings.Split, strconv.ParseUint, rand.Intn, sync.RWMutex and channel "
